@@ -389,8 +389,12 @@ def handle_proof(rep: Report, pid, search=None, extra_targets=()):
     rep.proof = pr
     rep.timings["prove"] = round(time.time() - t0, 2)
     if pr["ok"]:
-        log(f"[{pid}] prove: {pr['discharged']}/{pr['obligations']} theorems, axioms: "
-            f"{sorted({a for v in pr['axioms'].values() for a in v}) or 'closed'}")
+        allax = sorted({a for v in pr['axioms'].values() for a in v})
+        prim = [a for a in allax if a.startswith(('PrimInt63.', 'Uint63.'))]
+        rest = [a for a in allax if a not in prim]
+        if prim:
+            rest.append(f"<{len(prim)} Uint63/PrimInt63 primitive-integer specs of the standard library>")
+        log(f"[{pid}] prove: {pr['discharged']}/{pr['obligations']} theorems, axioms: {rest or 'closed'}")
         return True
     log(f"[{pid}] prove: BROKEN at {pr['failed_at']}\n{pr['log'][-1500:]}")
     found = search() if search else None
